@@ -88,7 +88,7 @@ def cargo_env():
     return env
 
 
-def build_runner(name, deps, features=None, lock=True, extra_files=None):
+def build_runner(name, deps, features=None, lock=True, extra_files=None, extra_deps=None):
     """Build /verif/runners/<name>/main.rs as a release binary linked against the
     working tree's crates. deps: dict crate -> relative path under the repo.
     Returns path to the binary. Raises RuntimeError on build failure."""
@@ -106,6 +106,7 @@ def build_runner(name, deps, features=None, lock=True, extra_files=None):
             '[[bin]]', 'name = "vr_%s"' % name, 'path = "src/main.rs"', '', '[dependencies]']
     for k, v in deps.items():
         toml.append('%s = { path = "%s" }' % (k, os.path.join(root, v)))
+    toml += list(extra_deps or [])
     toml += ['', '[workspace]', '', '[profile.release]', 'debug-assertions = true', 'overflow-checks = true', 'opt-level = 2']
     with open(os.path.join(d, 'Cargo.toml'), 'w') as f:
         f.write('\n'.join(toml) + '\n')
